@@ -1011,6 +1011,25 @@ def case_exact(case, model_state):
     return True
 
 
+def _coarse_dyadic_case(case) -> bool:
+    """every number the case puts in (parameter values, values of set operations) is a dyadic rational with at most 12
+    fractional bits and magnitude below 2^12 — a few products and sums of such numbers stay exactly representable"""
+    def ok(v):
+        try:
+            f = Fraction(float(v))
+        except (TypeError, ValueError, OverflowError):
+            return True
+        return f.denominator <= 4096 and abs(f) <= 4096 and f.denominator & (f.denominator - 1) == 0
+    for p in case.get("params", []):
+        if p.get("value") is not None and not ok(p["value"]):
+            return False
+    for op in case.get("ops", []):
+        if op and op[0] == "set" and len(op) > 2:
+            if not all(ok(v) for v in op[2]):
+                return False
+    return True
+
+
 REGIME = {"exact": 0, "tolerance": 0}
 WALL = {"max_case_s": 0.0}
 TIMEOUTS = {"n": 0}
@@ -1252,6 +1271,14 @@ def compare(ck, cases, tag, diagnostic_only=False, exact_only=False):
         if owner[i] in bad or owner[i] in unmodelled or owner[i] in inexact:
             continue
         st = sticky.setdefault(owner[i], [False])
+        if exact_only and not _coarse_dyadic_case(cases[owner[i]]):
+            # case_exact looks at the expressions on the FINAL values only; an iteration that does not settle (cyclic
+            # definition) also passes through the values of earlier passes, and with finite-difference sized inputs
+            # (27 significant bits) their products need 54 bits: the floats round where the model does not, and the
+            # parity of a 2-cycle can differ. Such cases are outside what the exact comparison can judge.
+            inexact.add(owner[i])
+            ck.count(f"skipped:{tag}-fine-grained-values")
+            continue
         why = compare_answer(cases[owner[i]], a, b, st)
         if exact_only and st[0] and a[0] != "err":
             # a diverging iteration (cyclic definition) amplifies rounding errors and overflows: only observations whose
